@@ -765,6 +765,23 @@ func ruleC10_2(c *Ctx) {
 	}
 	c.check(okApp, "handleWriteSignal: bytes of the moved fragment appended once, at the end", pos, "bs = append(bs, head.Req)",
 		"the write vector does not receive exactly head.Req of the fragment just put in flight, at its end: requests reach the node in another order than their fragments wait for replies")
+	// all three on every iteration: what is taken off the out queue goes in flight and onto the wire, whatever its state
+	if app != nil {
+		for _, step := range []struct {
+			in   ssa.Instruction
+			what string
+		}{{e[0].(ssa.Instruction), "put in flight"}, {app, "added to the write vector"}} {
+			every := true
+			for _, pr := range l.Header.Preds {
+				if l.Blocks[pr] && !step.in.Block().Dominates(pr) {
+					every = false
+				}
+			}
+			c.check(every, "handleWriteSignal: every dequeued fragment is "+step.what, c.at(step.in), "on every iteration of the drain loop",
+				"a fragment taken off the out queue is not always "+step.what+" (e.g. skipped when its client has gone away): either the node answers a request no fragment waits for, or a fragment waits for a reply the node never sends - "+
+					"from then on every reply on this connection is matched to the neighbouring request, which belongs to another client")
+		}
+	}
 	// chunked write: writev(bs[0:r]) ; bs = bs[r:]
 	n := 0
 	for _, w := range p.callsIn(hws, writev) {
